@@ -176,12 +176,15 @@ func (s *scanner) Next() (*hrpc.Result, error) {
 
 	select {
 	case <-s.rpc.Context().Done():
-		if s.closed {
+		if s.closed && len(s.results) == 0 {
 			// the error (or the end of the scan) has been reported
 			// already, from now on there are no more results
 			return nil, io.EOF
 		}
+		// fetch closes the scanner with the last response: results of it that
+		// haven't been returned yet are dropped here, and that is an error
 		s.Close()
+		s.results = nil
 		return nil, s.rpc.Context().Err()
 	default:
 	}
